@@ -41,9 +41,9 @@ def scenarios(tier: str) -> Dict[str, List[Dict[str, Any]]]:
 
 def keymap(scn):
     km, n = {}, 0
-    for e in scn:
-        k = (e["name"], e["remote"], e["id"])
-        rk = (e["remote"], e["name"], e["id"])
+    for e, rem in [(e, rem) for e in scn for rem in e.get("remotes", [e["remote"]])]:
+        k = (e["name"], rem, e["id"])
+        rk = (rem, e["name"], e["id"])
         if k not in km:
             if rk in km:
                 km[k] = km[rk] + 1 if km[rk] % 2 == 1 else km[rk] - 1
@@ -52,6 +52,19 @@ def keymap(scn):
                 km[k] = 2 * n - 1
                 km[rk] = 2 * n
     return km
+
+
+def explore_only() -> Dict[str, List[Dict[str, Any]]]:
+    """scenarios validated against HubAbs only (Hub.tla has no statement-level model of them)"""
+    c, s, r = ["connect", None], (lambda m: ["send", m]), ["recv", None]
+    return {
+        # ping-pong: B answers every message from inside its receive callback; whichever side starts first
+        "callback-answers": [ep("A", "B", 0, False, c, s("ping"), r), ep("B", "A", 0, "answer", c)],
+        "callback-answers-two": [ep("A", "B", 0, False, c, s("p1"), s("p2"), r, r), ep("B", "A", 0, "answer", c)],
+        # a broadcast channel (one socket per remote behind one receive): per remote, messages come out in sending order
+        "broadcast-receive": [dict(ep("A", "B", 0, False, ["bconnect", None], ["brecv", None], ["brecv", None], ["brecv", None]), remotes=["B", "C"]),
+                              ep("B", "A", 0, False, c, s("b1")), ep("C", "A", 0, False, c, s("c1"), s("c2"))],
+    }
 
 
 PHASED = {
@@ -91,8 +104,16 @@ def _explore(item):
         for k, v in p["final"]["msgs"]:
             if tuple(k) in km:
                 queues[km[tuple(k)] - 1] = list(v)
+        endpoints = [{"key": km[(e["name"], e["remote"], e["id"])], "cb": bool(e["cb"])} for e in scn] + [{"key": 4, "cb": False}] * (4 - len(scn))
+        for i_, e in enumerate(scn):
+            endpoints[i_]["keys"] = [km[(e["name"], rem, e["id"])] for rem in e.get("remotes", [e["remote"]])]
+        for x_ in endpoints:
+            x_.setdefault("keys", [x_["key"]])
+        for i_, e in enumerate(scn):
+            if e["cb"] == "answer":          # the pseudo-thread in which the answering callback's own send is logged
+                endpoints[i_ + 2] = {"key": km[(e["name"], e["remote"], e["id"])], "cb": False}
         rows.append({"scenario": name, "schedule": p["schedule"], "end": p["end"], "events": evs, "positions": p.get("positions", []),
-                     "endpoints": [{"key": km[(e["name"], e["remote"], e["id"])], "cb": e["cb"]} for e in scn] + [{"key": 4, "cb": False}] * (4 - len(scn)),
+                     "endpoints": endpoints,
                      "complete": p["end"] == "done", "queues": queues})
     return name, rows, st
 
@@ -145,7 +166,7 @@ def run(prop: str, tier: str) -> int:
                 V.add("model-violates-" + inv, {"scenario": name, "callbacks_first": cbf},
                       f"Hub.tla (statement order of the working tree: callbacks {'before' if cbf else 'after'} becoming visible) violates {inv} in scenario {name}")
         depth, nodes = (120, 60000) if tier == "quick" else (160, 400000)
-        jobs = [(n, s, depth, nodes) for n, s in S.items()] + [(n, s, depth, 400) for n, s in PHASED.items()]     # (280 nodes suffice when reset works; without it no two runs are alike)
+        jobs = [(n, s, depth, nodes) for n, s in S.items()] + [(n, s, depth, 400) for n, s in PHASED.items()] + [(n, s, depth, nodes) for n, s in explore_only().items()]     # (280 nodes suffice when reset works; without it no two runs are alike)
         # (fresh interpreters, not forks of this multi-threaded process: a forked child can inherit a lock that a thread of
         #  the parent held at the moment of the fork)
         import multiprocessing
